@@ -61,6 +61,8 @@ def JsonStructure : Prop :=
     renderTags = (jsonKeystore.map (fun f => (f.2.1, f.2.2.1)), jsonCrypto.map (fun f => (f.2.1, f.2.2.1)),
                   jsonHdPath.map (fun f => (f.2.1, f.2.2.1))) ∧
     jsonKeystore.map (fun f => f.2.2.2) = ["string", "cryptoJSON", "hdPath"] ∧
+    cryptoSpec.map (fun f => if f.isNat then (if f.max = 255 then "uint8" else "uint32") else "string") = jsonCrypto.map (fun f => f.2.2.2) ∧
+    hdSpec.map (fun f => if f.isNat then (if f.max = 4294967295 then "uint32" else "uint8") else "string") = jsonHdPath.map (fun f => f.2.2.2) ∧
     jsonCrypto.map (fun f => f.2.2.2) = ["uint8", "string", "string", "string", "string", "string", "string", "string", "string"] ∧
     jsonHdPath.map (fun f => f.2.2.2) = ["uint32", "uint32", "uint32", "uint32", "uint32"] ∧
     exportReads = ["fetchVersion", "fetchRemark", "fetchEntropy", "fetchAccountUsage", "fetchChildNum",
